@@ -59,7 +59,7 @@ fn multiset(values: &[f64]) -> HashMap<u64, i64> {
     m
 }
 
-fn case_seq(bytes: &[u8], _s: &[u8], ctx: &mut Ctx) -> Result<(), Fail> {
+pub fn case_seq(bytes: &[u8], _s: &[u8], ctx: &mut Ctx) -> Result<(), Fail> {
     let mut src = Source::new(bytes);
     let case = decode_seq(&mut src);
     ctx.case(&case);
@@ -143,7 +143,7 @@ enum Ev {
     DrainEnd(usize, Vec<u64>, f64),
 }
 
-fn case_conc(bytes: &[u8], sched_bytes: &[u8], ctx: &mut Ctx) -> Result<(), Fail> {
+pub fn case_conc(bytes: &[u8], sched_bytes: &[u8], ctx: &mut Ctx) -> Result<(), Fail> {
     let mut src = Source::new(bytes);
     let capacity = *src.pick(&[0usize, 1, 2, 3, 8]);
     let case = ConcCase {
@@ -353,7 +353,7 @@ fn uniformity(pr: &PropRun) -> LaneReport {
     rep
 }
 
-fn case_uniformity_replay(bytes: &[u8], _s: &[u8], ctx: &mut Ctx) -> Result<(), Fail> {
+pub fn case_uniformity_replay(bytes: &[u8], _s: &[u8], ctx: &mut Ctx) -> Result<(), Fail> {
     let k = *bytes.first().unwrap_or(&1) as usize;
     let n = (*bytes.get(1).unwrap_or(&2) as usize).max(k + 1);
     ctx.case(&("uniformity replay", k, n));
@@ -446,7 +446,7 @@ fn uniformity_fresh_threads(pr: &PropRun) -> LaneReport {
     rep
 }
 
-fn case_uniformity_fresh_replay(bytes: &[u8], _s: &[u8], ctx: &mut Ctx) -> Result<(), Fail> {
+pub fn case_uniformity_fresh_replay(bytes: &[u8], _s: &[u8], ctx: &mut Ctx) -> Result<(), Fail> {
     let k = (*bytes.first().unwrap_or(&1) as usize).max(1);
     let n = (*bytes.get(1).unwrap_or(&2) as usize).max(k + 1);
     ctx.case(&("uniformity replay, one trial per new thread", k, n));
